@@ -160,6 +160,18 @@ def oracle(case):
         if not np.array_equal(np.array(before), np.array(after), equal_nan=True):
             return (dict(sig, clause="history-other-instance"),
                     "%s conditional with fixed %r: cdf changes from %r to %r after another ConditionalDistribution with fixed %r was created" % (cname, fixed, before, after, fixed2))
+    # history: the caller goes on using the dict of dependence functions it handed in (replaces an entry to set up another model):
+    # the conditional distribution already constructed keeps the functions it was constructed with
+    if deps:
+        before = [float(cd.cdf(x, g)) for x, g in zip(xs, gs)]
+        saved = dict(deps)
+        k0 = sorted(deps)[0]
+        deps[k0] = (lambda x, f=saved[k0]: 1.37 * f(x) + 0.21)
+        after = [float(cd.cdf(x, g)) for x, g in zip(xs, gs)]
+        deps.clear(); deps.update(saved)
+        if not np.array_equal(np.array(before), np.array(after), equal_nan=True):
+            return (dict(sig, clause="history-caller-dict"),
+                    "%s conditional: cdf changes from %r to %r after the caller replaced the entry %r of the parameters dict it had passed to the constructor" % (cname, before, after, k0))
     # history: evaluating, changing the caller's array in place, evaluating again uses the NEW values
     buf = np.array(case["gs"], dtype=float)
     first = np.asarray(cd.cdf(np.full(len(buf), xs[0]), buf), dtype=float)
@@ -254,6 +266,42 @@ def chained_oracle(rng):
     want = (a1 + b1 * g) * f_out.parameters["d"] + g
     if not np.allclose(after, want, rtol=1e-12):
         return ({"cls": "DependenceFunction", "clause": "chained-refit"}, "after re-fitting the inner dependence function the outer one returns %r at %r, expected %r" % (after.tolist(), g.tolist(), want.tolist()))
+    return None
+
+
+def scipy_template_oracle(rng):
+    """a ScipyDistribution subclass as template: pdf, cdf, icdf AND sampling of the conditional are those of the template with the
+    dependence values (the forwarders pass every parameter by keyword)"""
+    import scipy.stats as sts
+    dm = D.dist_module()
+    for name, shapes in (("gengamma", ["a", "c"]), ("gamma", ["a"]), ("weibull_min", ["c"])):
+        Sub = type("T_" + name, (dm.ScipyDistribution,), {"scipy_dist_name": name})
+        base = {q: rng.uniform(1.2, 3.0) for q in shapes}
+        base["scale"] = rng.uniform(0.5, 2.0)
+        deps = {q: (lambda x, a=v: a * (1 + 0.15 * np.tanh(x))) for q, v in base.items()}
+        cd = dm.ConditionalDistribution(Sub(f_loc=0.0), deps)
+        sd = getattr(sts, name)
+        gs = np.array([0.4, 1.7, 3.1, 5.0])
+        sig = {"cls": "ScipyDistribution", "family": name}
+        for g in list(gs) + [gs]:
+            th = {q: f(g) for q, f in deps.items()}
+            args = [th[q] for q in shapes]
+            x = sd.ppf(0.6, *args, loc=0.0, scale=th["scale"])
+            for m, ref in (("cdf", sd.cdf), ("pdf", sd.pdf)):
+                got, want = np.asarray(getattr(cd, m)(x, g), dtype=float), np.asarray(ref(x, *args, loc=0.0, scale=th["scale"]), dtype=float)
+                if got.shape != want.shape or not np.allclose(got, want, rtol=1e-12, atol=0):
+                    return (dict(sig, clause="template-at-theta", method=m), "conditional %s with a ScipyDistribution(%s) template: %s(%r, given=%r) = %r, scipy with the dependence values gives %r" % (m, name, m, np.asarray(x).tolist(), np.asarray(g).tolist(), got.tolist(), want.tolist()))
+            got = np.asarray(cd.icdf(0.6 if np.ndim(g) == 0 else np.full(len(gs), 0.6), g), dtype=float)
+            if not np.allclose(got, np.asarray(x, dtype=float), rtol=1e-10):
+                return (dict(sig, clause="template-at-theta", method="icdf"), "conditional icdf with a ScipyDistribution(%s) template differs from scipy's ppf at the dependence values" % name)
+            n = 7
+            smp = np.asarray(cd.draw_sample(n, g, random_state=21), dtype=float)
+            size = n if np.ndim(g) == 0 else (n, len(gs))
+            want = np.asarray(sd.rvs(*args, loc=0.0, scale=th["scale"], size=size, random_state=21), dtype=float)
+            if smp.shape != want.shape or not np.array_equal(smp, want):
+                return (dict(sig, clause="template-at-theta", method="draw_sample"),
+                        "conditional draw_sample(%d, given=%r) with a ScipyDistribution(%s) template: shape %r, first values %r; scipy.rvs with the dependence values: shape %r, %r"
+                        % (n, np.asarray(g).tolist(), name, smp.shape, smp.ravel()[:3].tolist(), want.shape, want.ravel()[:3].tolist()))
     return None
 
 
@@ -365,6 +413,15 @@ def run(ctx):
     if o is not None:
         ctx.violation(o[0], o[1], {"chained": True})
     bind_correspondence(ctx, rng, ctx.n(60, 600))
+    for _ in range(ctx.n(2, 10)):
+        try:
+            o = scipy_template_oracle(rng)
+        except Exception as e:  # noqa
+            o = ({"cls": "ScipyDistribution", "clause": "exception", "exc": type(e).__name__}, "conditional with a ScipyDistribution template raised %s: %s" % (type(e).__name__, e))
+        ctx.count(("scipy-template", _), True)
+        if o is not None:
+            ctx.violation(o[0], o[1], {"scipy_template": True})
+            break
     for c, r in list(zip(cases, results))[:2]:
         ctx.sample({"case": c, "recorded": {k: v for k, v in r.items() if k != "table"}})
     ctx.cov["rule"] = ("random template family x partition of its parameters into fixed/dependent x dependence shapes x 1-4 conditioning values, plus malformed constructor "
